@@ -119,7 +119,7 @@ class Run:
             B = z3.BitVecSort(64)
             self.uf = {'Tp': z3.Function('Tp', B, B, B, B), 'Tc': z3.Function('Tc', B, B), 'Te': z3.Function('Te', B, B),
                        'Tw': z3.BitVec('Tw', 64)}
-            sv['board::zkey::TABLE'] = (UFArr(self.uf['Tp'], 3), UFArr(self.uf['Tc'], 1), UFArr(self.uf['Te'], 1), self.uf['Tw'])
+            sv['board::zkey::TABLE'] = (UFArr(self.uf['Tp'], 3, dims=(2, 6, 64)), UFArr(self.uf['Tc'], 1, dims=(4,)), UFArr(self.uf['Te'], 1, dims=(8,)), self.uf['Tw'])
             self.stubs.add('Zobrist table: uninterpreted functions Tp(colour,piece,square), Tc(i), Te(file), Tw - result holds for every table')
         self.stubs.add('OnceLock statics: contents taken from a native run of the real initialisers (helper `tables`)')
 
